@@ -366,6 +366,10 @@ func Extract(a *Term, hi, lo uint8) *Term {
 		if a.Size < 16 {
 			return Bin(a.Op, Extract(a.Args[0], hi, lo), Extract(a.Args[1], hi, lo))
 		}
+	case OpIte:
+		if constLeaves(a) {
+			return Ite(a.Args[0], Extract(a.Args[1], hi, lo), Extract(a.Args[2], hi, lo))
+		}
 	}
 	t := mk(OpExtract, w, a)
 	t.C = uint64(hi)<<8 | uint64(lo)
@@ -384,6 +388,9 @@ func ZExt(a *Term, w uint8) *Term {
 	}
 	if a.Op == OpZExt {
 		return ZExt(a.Args[0], w)
+	}
+	if a.Op == OpIte && constLeaves(a) {
+		return Ite(a.Args[0], ZExt(a.Args[1], w), ZExt(a.Args[2], w))
 	}
 	return mk(OpZExt, w, a)
 }
@@ -404,8 +411,35 @@ func SExt(a *Term, w uint8) *Term {
 	if a.Op == OpZExt {
 		return ZExt(a.Args[0], w)
 	}
+	if a.Op == OpIte && constLeaves(a) {
+		return Ite(a.Args[0], SExt(a.Args[1], w), SExt(a.Args[2], w))
+	}
 	return mk(OpSExt, w, a)
 }
+
+// constLeaves reports whether a is an ite-chain all of whose leaves are constants
+// (bounded depth), e.g. the result of a table lookup or of bits.Len.
+func constLeaves(a *Term) bool {
+	for d := 0; d < 300; d++ {
+		if a.IsConst() {
+			return true
+		}
+		if a.Op != OpIte {
+			return false
+		}
+		if a.Args[1].IsConst() {
+			a = a.Args[2]
+		} else if a.Args[2].IsConst() {
+			a = a.Args[1]
+		} else {
+			return false
+		}
+	}
+	return false
+}
+
+// ConstLeaves is the exported form of constLeaves.
+func ConstLeaves(a *Term) bool { return constLeaves(a) }
 
 func Concat(hi, lo *Term) *Term {
 	if hi.IsConst() && lo.IsConst() {
@@ -496,6 +530,12 @@ func Eq(a, b *Term) *Term {
 			}
 			if y.IsConst() && y.C != b.C {
 				return BAnd(a.Args[0], Eq(x, b))
+			}
+			if x.IsConst() && x.C == b.C {
+				return BOr(a.Args[0], Eq(y, b))
+			}
+			if y.IsConst() && y.C == b.C {
+				return BOr(BNot(a.Args[0]), Eq(x, b))
 			}
 		case OpZExt:
 			in := a.Args[0]
